@@ -6,7 +6,8 @@
 //	identity expand <table> <chunk> <out.ndjson> every element of one digest chunk as ordinary events
 //	identity digest1 <table> <chunk> <out.ndjson> one digest chunk;  identity redo <event.json> <out.ndjson> repeat one logged call
 //
-// The driver only calls the library and writes what it saw; text is logged as code points.
+// The driver only calls the library and writes what it saw; text is logged as code points.  Every result is read twice:
+// at once (ots/ob/on) and again from the retained return values after later calls were made (hts/hb/hn).
 package main
 
 import (
@@ -36,6 +37,12 @@ type Ev struct {
 	Err   bool    `json:"err"`
 	Panic bool    `json:"panic"`
 	Pfn   string  `json:"pfn"`
+	// the same result read AGAIN from the retained return values after later calls (of the same function with
+	// different arguments and of other functions) were made: a result is a value and may not change
+	Hts [][]int `json:"hts"`
+	Hb  []int   `json:"hb"`
+	Hn  []int   `json:"hn"`
+	Hc  int     `json:"hc"` // number of later calls made while the result was held
 }
 
 type Case struct {
@@ -63,9 +70,35 @@ func texts(ss ...string) [][]int {
 	return o
 }
 
-// emit runs f under the panic guard and writes one event
-func emit(op string, ts [][]int, b []int, n []int, f func(e *Ev)) {
-	e := Ev{Op: op, Ts: ts, B: b, N: n, Ots: [][]int{}, Ob: []int{}, On: []int{}}
+// A call is written in two phases: call() invokes the library and RETAINS whatever it returned (slices, strings,
+// structs, exactly as returned, no copy); the reader it gives back projects those retained values into an event.
+// emit reads once at once (ots/ob/on) and queues the event; when hold further events have been queued the oldest is
+// flushed: one more call of the same function with different arguments and one call of another function are made
+// (results dropped), then the retained values are read a second time (hts/hb/hn) and the event is written.
+type reader func(e *Ev)
+
+type pend struct {
+	e   Ev
+	key string
+	rd  reader
+	seq int
+}
+
+type alt struct {
+	op, key string
+	call    func() reader
+}
+
+const hold = 6
+
+var (
+	queue  []pend
+	alts   = map[string][]alt{} // per function: the two most recent calls with distinct arguments
+	recent []alt                // the most recent calls of two distinct functions
+	nCalls int
+)
+
+func fill(e *Ev) {
 	if e.Ts == nil {
 		e.Ts = [][]int{}
 	}
@@ -75,113 +108,219 @@ func emit(op string, ts [][]int, b []int, n []int, f func(e *Ev)) {
 	if e.N == nil {
 		e.N = []int{}
 	}
-	if pi := ev.Guard(func() { f(&e) }); pi != nil {
+	if e.Ots == nil {
+		e.Ots = [][]int{}
+	}
+	if e.Ob == nil {
+		e.Ob = []int{}
+	}
+	if e.On == nil {
+		e.On = []int{}
+	}
+	if e.Hts == nil {
+		e.Hts = [][]int{}
+	}
+	if e.Hb == nil {
+		e.Hb = []int{}
+	}
+	if e.Hn == nil {
+		e.Hn = []int{}
+	}
+}
+
+func emit(op string, ts [][]int, b []int, n []int, call func() reader) {
+	e := Ev{Op: op, Ts: ts, B: b, N: n}
+	fill(&e)
+	kb, _ := json.Marshal([]interface{}{e.Ts, e.B, e.N})
+	key := string(kb)
+	var rd reader
+	if pi := ev.Guard(func() { rd = call(); rd(&e) }); pi != nil {
 		if !pi.Lib {
 			ev.Fatal("panic outside the library in %s: %s (%s)", op, pi.Kind, pi.Fn)
 		}
-		e.Panic, e.Pfn = true, pi.Fn
-		e.Ots, e.Ob, e.On, e.Err = [][]int{}, []int{}, []int{}, false
+		e.Panic, e.Pfn, rd = true, pi.Fn, nil
+		e.Ots, e.Ob, e.On, e.Err = nil, nil, nil, false
 	}
-	w.Emit(e)
+	nCalls++
+	queue = append(queue, pend{e: e, key: key, rd: rd, seq: nCalls})
+	a := alt{op: op, key: key, call: call}
+	if l := alts[op]; len(l) == 0 || l[0].key != key {
+		alts[op] = append([]alt{a}, l...)
+		if len(alts[op]) > 2 {
+			alts[op] = alts[op][:2]
+		}
+	}
+	if len(recent) == 0 || recent[0].op != op {
+		recent = append([]alt{a}, recent...)
+		if len(recent) > 2 {
+			recent = recent[:2]
+		}
+	} else {
+		recent[0] = a
+	}
+	for len(queue) > hold {
+		flushOne()
+	}
+}
+
+func shadow(a alt) {
+	ev.Guard(func() { a.call() }) // the result is dropped; a panic here was or will be logged by the call's own event
+	nCalls++
+}
+
+func flushOne() {
+	p := queue[0]
+	queue = queue[1:]
+	for _, a := range alts[p.e.Op] {
+		if a.key != p.key {
+			shadow(a)
+			break
+		}
+	}
+	for _, a := range recent {
+		if a.op != p.e.Op {
+			shadow(a)
+			break
+		}
+	}
+	if p.rd != nil {
+		var h Ev
+		if pi := ev.Guard(func() { p.rd(&h) }); pi != nil {
+			ev.Fatal("panic while re-reading the held result of %s: %s", p.e.Op, pi.Kind)
+		}
+		p.e.Hts, p.e.Hb, p.e.Hn = h.Ots, h.Ob, h.On
+	}
+	p.e.Hc = nCalls - p.seq
+	fill(&p.e)
+	w.Emit(p.e)
+}
+
+func flushAll() {
+	for len(queue) > 0 {
+		flushOne()
+	}
 }
 
 // ---------------------------------------------------------------- the observed functions
 
 func plmnCalls(mcc, mnc string, wire []int) {
 	if mcc != "" {
-		emit("PlmnIDToNas", texts(mcc, mnc), nil, nil, func(e *Ev) {
-			e.Ob = ev.Ints(nasConvert.PlmnIDToNas(models.PlmnId{Mcc: mcc, Mnc: mnc}))
+		emit("PlmnIDToNas", texts(mcc, mnc), nil, nil, func() reader {
+			r := nasConvert.PlmnIDToNas(models.PlmnId{Mcc: mcc, Mnc: mnc})
+			return func(e *Ev) { e.Ob = ev.Ints(r) }
 		})
-		emit("RT.PlmnText", texts(mcc, mnc), nil, nil, func(e *Ev) {
-			e.Ots = texts(nasConvert.PlmnIDToString(nasConvert.PlmnIDToNas(models.PlmnId{Mcc: mcc, Mnc: mnc})))
+		emit("RT.PlmnText", texts(mcc, mnc), nil, nil, func() reader {
+			r := nasConvert.PlmnIDToString(nasConvert.PlmnIDToNas(models.PlmnId{Mcc: mcc, Mnc: mnc}))
+			return func(e *Ev) { e.Ots = texts(r) }
 		})
 	}
 	if wire != nil {
-		emit("PlmnIDToString", nil, wire, nil, func(e *Ev) {
-			e.Ots = texts(nasConvert.PlmnIDToString(ev.Bytes(wire)))
+		emit("PlmnIDToString", nil, wire, nil, func() reader {
+			r := nasConvert.PlmnIDToString(ev.Bytes(wire))
+			return func(e *Ev) { e.Ots = texts(r) }
 		})
-		emit("RT.PlmnWire", nil, wire, nil, func(e *Ev) {
+		emit("RT.PlmnWire", nil, wire, nil, func() reader {
 			s := nasConvert.PlmnIDToString(ev.Bytes(wire))
-			e.Ob = ev.Ints(nasConvert.PlmnIDToNas(models.PlmnId{Mcc: s[:3], Mnc: s[3:]}))
+			r := nasConvert.PlmnIDToNas(models.PlmnId{Mcc: s[:3], Mnc: s[3:]})
+			return func(e *Ev) { e.Ob = ev.Ints(r) }
 		})
 	}
 }
 
 func amfToModels(n []int) {
-	emit("AmfIdToModels", nil, nil, n, func(e *Ev) {
-		e.Ots = texts(nasConvert.AmfIdToModels(uint8(n[0]), uint16(n[1]), uint8(n[2])))
+	emit("AmfIdToModels", nil, nil, n, func() reader {
+		r := nasConvert.AmfIdToModels(uint8(n[0]), uint16(n[1]), uint8(n[2]))
+		return func(e *Ev) { e.Ots = texts(r) }
 	})
 }
 
 func amfToNas(t string) {
-	emit("AmfIdToNasWithError", texts(t), nil, nil, func(e *Ev) {
+	emit("AmfIdToNasWithError", texts(t), nil, nil, func() reader {
 		r, s, p, err := nasConvert.AmfIdToNasWithError(t)
-		e.On, e.Err = []int{int(r), int(s), int(p)}, err != nil
+		return func(e *Ev) { e.On, e.Err = []int{int(r), int(s), int(p)}, err != nil }
 	})
 }
 
 func amfRT(n []int, t string) {
 	if n != nil {
-		emit("RT.AmfNum", nil, nil, n, func(e *Ev) {
+		emit("RT.AmfNum", nil, nil, n, func() reader {
 			r, s, p, err := nasConvert.AmfIdToNasWithError(nasConvert.AmfIdToModels(uint8(n[0]), uint16(n[1]), uint8(n[2])))
-			e.On, e.Err = []int{int(r), int(s), int(p)}, err != nil
+			return func(e *Ev) { e.On, e.Err = []int{int(r), int(s), int(p)}, err != nil }
 		})
 	}
 	if t != "" {
-		emit("RT.AmfText", texts(t), nil, nil, func(e *Ev) {
+		emit("RT.AmfText", texts(t), nil, nil, func() reader {
 			r, s, p, err := nasConvert.AmfIdToNasWithError(t)
-			e.Err = err != nil
+			back := ""
 			if err == nil {
-				e.Ots = texts(nasConvert.AmfIdToModels(r, s, p))
+				back = nasConvert.AmfIdToModels(r, s, p)
+			}
+			return func(e *Ev) {
+				e.Err = err != nil
+				if err == nil {
+					e.Ots = texts(back)
+				}
 			}
 		})
 	}
 }
 
 func gutiToString(wire []int) {
-	emit("GutiToStringWithError", nil, wire, nil, func(e *Ev) {
+	emit("GutiToStringWithError", nil, wire, nil, func() reader {
 		guami, guti, err := nasConvert.GutiToStringWithError(ev.Bytes(wire))
-		e.Err = err != nil
-		if err == nil {
-			mcc, mnc := "", ""
-			if guami.PlmnId != nil {
-				mcc, mnc = guami.PlmnId.Mcc, guami.PlmnId.Mnc
+		return func(e *Ev) {
+			e.Err = err != nil
+			if err == nil {
+				mcc, mnc := "", ""
+				if guami.PlmnId != nil {
+					mcc, mnc = guami.PlmnId.Mcc, guami.PlmnId.Mnc
+				}
+				e.Ots = texts(guti, mcc, mnc, guami.AmfId)
 			}
-			e.Ots = texts(guti, mcc, mnc, guami.AmfId)
 		}
 	})
 }
 
 func gutiToNas(t string) {
-	emit("GutiToNasWithError", texts(t), nil, nil, func(e *Ev) {
+	emit("GutiToNasWithError", texts(t), nil, nil, func() reader {
 		g, err := nasConvert.GutiToNasWithError(t)
-		e.Err = err != nil
-		if err == nil {
-			e.Ob, e.On = ev.Ints(g.Octet[:]), []int{int(g.Len)}
+		return func(e *Ev) {
+			e.Err = err != nil
+			if err == nil {
+				e.Ob, e.On = ev.Ints(g.Octet[:]), []int{int(g.Len)}
+			}
 		}
 	})
 }
 
 func gutiRT(wire []int, t string) {
 	if t != "" {
-		emit("RT.GutiText", texts(t), nil, nil, func(e *Ev) {
+		emit("RT.GutiText", texts(t), nil, nil, func() reader {
 			g, err := nasConvert.GutiToNasWithError(t)
-			e.Err = err != nil
+			back := ""
 			if err == nil {
-				_, back, err2 := nasConvert.GutiToStringWithError(g.Octet[:])
-				e.Err = err2 != nil
-				e.Ots = texts(back)
+				_, back, err = nasConvert.GutiToStringWithError(g.Octet[:])
+			}
+			return func(e *Ev) {
+				e.Err = err != nil
+				if err == nil {
+					e.Ots = texts(back)
+				}
 			}
 		})
 	}
 	if wire != nil {
-		emit("RT.GutiWire", nil, wire, nil, func(e *Ev) {
+		emit("RT.GutiWire", nil, wire, nil, func() reader {
 			_, t2, err := nasConvert.GutiToStringWithError(ev.Bytes(wire))
-			e.Err = err != nil
+			var g nasType.GUTI5G
 			if err == nil {
-				g, err2 := nasConvert.GutiToNasWithError(t2)
-				e.Err = err2 != nil
-				e.Ob = ev.Ints(g.Octet[:])
+				g, err = nasConvert.GutiToNasWithError(t2)
+			}
+			return func(e *Ev) {
+				e.Err = err != nil
+				if err == nil {
+					e.Ob = ev.Ints(g.Octet[:])
+				}
 			}
 		})
 	}
@@ -192,17 +331,20 @@ func mi(wire []int) *nasType.MobileIdentity5GS {
 }
 
 func miGetter(name string, wire []int, f func(a *nasType.MobileIdentity5GS) string) {
-	emit("MI."+name, nil, wire, nil, func(e *Ev) { e.Ots = texts(f(mi(wire))) })
+	emit("MI."+name, nil, wire, nil, func() reader {
+		r := f(mi(wire))
+		return func(e *Ev) { e.Ots = texts(r) }
+	})
 }
 
 func miCommon(wire []int) {
-	emit("MI.GetTypeOfIdentity", nil, wire, nil, func(e *Ev) {
+	emit("MI.GetTypeOfIdentity", nil, wire, nil, func() reader {
 		s, err := mi(wire).GetTypeOfIdentity()
-		e.Ots, e.Err = texts(s), err != nil
+		return func(e *Ev) { e.Ots, e.Err = texts(s), err != nil }
 	})
-	emit("MI.GetMobileIdentity", nil, wire, nil, func(e *Ev) {
+	emit("MI.GetMobileIdentity", nil, wire, nil, func() reader {
 		id, typ, err := mi(wire).GetMobileIdentity()
-		e.Ots, e.Err = texts(id, typ), err != nil
+		return func(e *Ev) { e.Ots, e.Err = texts(id, typ), err != nil }
 	})
 }
 
@@ -221,9 +363,9 @@ func miGuti(wire []int) {
 
 func miSTmsi(wire []int) {
 	miCommon(wire)
-	emit("MI.Get5GSTMSI", nil, wire, nil, func(e *Ev) {
+	emit("MI.Get5GSTMSI", nil, wire, nil, func() reader {
 		s, typ, err := mi(wire).Get5GSTMSI()
-		e.Ots, e.Err = texts(s, typ), err != nil
+		return func(e *Ev) { e.Ots, e.Err = texts(s, typ), err != nil }
 	})
 	miGetter("GetAmfSetID", wire, (*nasType.MobileIdentity5GS).GetAmfSetID)
 	miGetter("GetAmfPointer", wire, (*nasType.MobileIdentity5GS).GetAmfPointer)
@@ -231,9 +373,9 @@ func miSTmsi(wire []int) {
 }
 
 func suciCalls(wire []int) {
-	emit("SuciToStringWithError", nil, wire, nil, func(e *Ev) {
+	emit("SuciToStringWithError", nil, wire, nil, func() reader {
 		s, plmn, err := nasConvert.SuciToStringWithError(ev.Bytes(wire))
-		e.Ots, e.Err = texts(s, plmn), err != nil
+		return func(e *Ev) { e.Ots, e.Err = texts(s, plmn), err != nil }
 	})
 	miCommon(wire)
 	miGetter("GetSUCI", wire, (*nasType.MobileIdentity5GS).GetSUCI)
@@ -245,9 +387,9 @@ func suciCalls(wire []int) {
 }
 
 func peiCalls(wire []int) {
-	emit("PeiToStringWithError", nil, wire, nil, func(e *Ev) {
+	emit("PeiToStringWithError", nil, wire, nil, func() reader {
 		s, err := nasConvert.PeiToStringWithError(ev.Bytes(wire))
-		e.Ots, e.Err = texts(s), err != nil
+		return func(e *Ev) { e.Ots, e.Err = texts(s), err != nil }
 	})
 	miCommon(wire)
 	miGetter("GetIMEI", wire, (*nasType.MobileIdentity5GS).GetIMEI)
@@ -295,6 +437,7 @@ func replay(in, out string) {
 	for _, c := range cs {
 		runCase(c)
 	}
+	flushAll()
 	w.Close()
 }
 
@@ -457,6 +600,7 @@ func record(out string) {
 		}
 		peiCalls(pw)
 	}
+	flushAll()
 	w.Close()
 }
 
@@ -508,7 +652,10 @@ func digestChunk(table, chunk int) {
 			s[k] = (s[k] + (i%p+1)*(v%p)) % p
 		}
 	}
-	w.Emit(Ev{Op: "Digest", Ts: [][]int{}, B: []int{}, N: []int{table, chunk}, Ots: [][]int{}, Ob: []int{}, On: s[:]})
+	flushAll()
+	e := Ev{Op: "Digest", N: []int{table, chunk}, On: s[:], Hn: s[:]}
+	fill(&e)
+	w.Emit(e)
 }
 
 func digest(out string) {
@@ -528,24 +675,14 @@ func digest1(table, chunk int, out string) {
 }
 
 // redo repeats one logged call (same operation, same input) in this fresh process
-func redo(in, out string) {
-	b, err := os.ReadFile(in)
-	if err != nil {
-		ev.Fatal("%v", err)
-	}
-	var e Ev
-	if err := json.Unmarshal(b, &e); err != nil {
-		ev.Fatal("%v", err)
-	}
-	w = ev.Create(out)
+// redoOne repeats one logged call (same operation, same input); the helpers may emit further operations
+func redoOne(e Ev) {
 	t := func(i int) string {
 		if i < len(e.Ts) {
 			return str(e.Ts[i])
 		}
 		return ""
 	}
-	// each helper emits several operations; keep only the one asked for
-	keep := e.Op
 	switch {
 	case e.Op == "PlmnIDToNas" || e.Op == "RT.PlmnText":
 		plmnCalls(t(0), t(1), nil)
@@ -581,6 +718,32 @@ func redo(in, out string) {
 	default:
 		ev.Fatal("redo: unknown op %q", e.Op)
 	}
+}
+
+// redo repeats logged calls in this fresh process: the file holds one event or an array of events; the FIRST is the
+// one asked for, the others (same function, different arguments) are run after it while its result is held.
+func redo(in, out string) {
+	b, err := os.ReadFile(in)
+	if err != nil {
+		ev.Fatal("%v", err)
+	}
+	var es []Ev
+	if len(b) > 0 && b[0] == '[' {
+		err = json.Unmarshal(b, &es)
+	} else {
+		var e Ev
+		err = json.Unmarshal(b, &e)
+		es = []Ev{e}
+	}
+	if err != nil || len(es) == 0 {
+		ev.Fatal("redo: cannot read %s: %v", in, err)
+	}
+	w = ev.Create(out)
+	keep := es[0].Op
+	for _, e := range es {
+		redoOne(e)
+	}
+	flushAll()
 	w.Close()
 	// filter the output file down to the requested operation (first occurrence)
 	lines, err := os.ReadFile(out)
@@ -620,6 +783,7 @@ func expand(table, chunk int, out string) {
 			miGetter("GetAmfPointer", b, (*nasType.MobileIdentity5GS).GetAmfPointer)
 		}
 	}
+	flushAll()
 	w.Close()
 }
 
